@@ -838,6 +838,18 @@ def chain(fix_funcs: Iterable[Callable], max_iter: int = 10) -> Callable:
     return func_chain
 
 
+def _is_atom(code: str) -> bool:
+    """Whether code is an expression that never needs parentheses around it, like a name or a call."""
+    try:
+        expression = ast.parse(code.strip(), mode="eval").body
+    except (SyntaxError, ValueError):
+        return False
+
+    atoms = (ast.Name, ast.Constant, ast.Call, ast.Attribute, ast.Subscript, ast.JoinedStr)
+    displays = (ast.List, ast.Dict, ast.Set, ast.ListComp, ast.DictComp, ast.SetComp)
+    return isinstance(expression, (*atoms, *displays))
+
+
 def find_replace(
     source: str,
     find: str | ast.AST,
@@ -910,6 +922,23 @@ def find_replace(
         replacement_range = core.Range(range_start, range_end)
 
         template_replacement = core.format_template(replace, combined_match, **callables)
+
+        if (
+            not isinstance(find, list)
+            and isinstance(matches[0][0], ast.expr)
+            and template_replacement.strip()
+            and "\n" not in template_replacement.strip()
+        ):
+            # The replacement takes the place of one operand, and must remain one where it is put.
+            plain = source[:range_start] + template_replacement + source[range_end:]
+            grouped = source[:range_start] + f"({template_replacement})" + source[range_end:]
+            if (
+                not _is_atom(template_replacement)
+                and core.is_valid_python(plain)
+                and core.is_valid_python(grouped)
+                and not _sources_equivalent(plain, grouped)
+            ):
+                template_replacement = f"({template_replacement})"
 
         indentation = formatting.indentation_level(source[range_start:range_end])
 
